@@ -137,6 +137,10 @@ func (fd *Client) CreateTable(ctx context.Context, input *dynamodb.CreateTableIn
 	fd.mu.Lock()
 	defer fd.mu.Unlock()
 
+	if err := validateCreateTableInput(input); err != nil {
+		return nil, err
+	}
+
 	tableName := aws.ToString(input.TableName)
 	if _, ok := fd.tables[tableName]; ok {
 		return nil, &types.ResourceInUseException{Message: aws.String("Cannot create preexisting table")}
@@ -168,6 +172,38 @@ func (fd *Client) CreateTable(ctx context.Context, input *dynamodb.CreateTableIn
 	return &dynamodb.CreateTableOutput{
 		TableDescription: mapTypesToDynamoTableDescription(newTable.Description(tableName)),
 	}, nil
+}
+
+// validateCreateTableInput refuses a CreateTable request that lacks one of the names the SDK marks
+// as required (the real client refuses it before it is sent)
+func validateCreateTableInput(input *dynamodb.CreateTableInput) error {
+	if aws.ToString(input.TableName) == "" {
+		return missingParameter("TableName")
+	}
+
+	for _, definition := range input.AttributeDefinitions {
+		if aws.ToString(definition.AttributeName) == "" || definition.AttributeType == "" {
+			return missingParameter("AttributeDefinitions.AttributeName / AttributeType")
+		}
+	}
+
+	for _, gsi := range input.GlobalSecondaryIndexes {
+		if aws.ToString(gsi.IndexName) == "" {
+			return missingParameter("GlobalSecondaryIndexes.IndexName")
+		}
+	}
+
+	for _, lsi := range input.LocalSecondaryIndexes {
+		if aws.ToString(lsi.IndexName) == "" {
+			return missingParameter("LocalSecondaryIndexes.IndexName")
+		}
+	}
+
+	return nil
+}
+
+func missingParameter(name string) error {
+	return &smithy.GenericAPIError{Code: "ValidationException", Message: "1 validation error detected: missing required field, " + name}
 }
 
 // DeleteTable deletes a table
@@ -203,6 +239,12 @@ func (fd *Client) UpdateTable(ctx context.Context, input *dynamodb.UpdateTableIn
 	table, ok := fd.tables[tableName]
 	if !ok {
 		return nil, &types.ResourceNotFoundException{Message: aws.String("Cannot do operations on a non-existent table")}
+	}
+
+	for _, change := range input.GlobalSecondaryIndexUpdates {
+		if change.Create != nil && aws.ToString(change.Create.IndexName) == "" {
+			return nil, missingParameter("GlobalSecondaryIndexUpdates.Create.IndexName")
+		}
 	}
 
 	var attrs []*coretypes.AttributeDefinition
